@@ -14,7 +14,7 @@ import (
 func init() {
 	register(&propDef{
 		ID:          "C12",
-		Explanation: "Decides, for the per-context registries of package templ and the generator's hoisting: R1 every `already rendered?` query is a check-then-record — on the not-yet-rendered side the paired record call follows with the same key, and the emission of the script/class/once body sits on that side only; R2 the registry methods touch only fields of their receiver (no package-level state), and the registry lives in the context value created per InitializeContext; R3 the two type switches over class containers agree: every container type from which the class-NAME switch extracts a component class has an acting case in the CSS-RULE switch, and every acting case of the rule switch has a case in the name switch (otherwise a class is named without its rule, or ruled under the unknown-type name); R4 on every emission path of an element writer, the calls that emit RenderCSSItems / RenderScriptItems precede the element's `<name` literal (GEM); R5 the CSS middleware records every registered class in the context it passes to the next handler and serves them from the stylesheet endpoint. R6 the map fields of the per-render state are only assigned freshly made maps (never an existing map, which would be shared between requests); R7 the once-handle registry is keyed by the handle's identity (its pointer), not by a field that only the constructor sets. R8 a render has one state object (stored by InitializeContext only, never copied by value), so marks are seen by the whole render. R9 the collector of script definitions and the attribute writer hand the event-handler predicate the attribute name in the same form. R10 every element emitter of the generator that hands an attribute list to the attribute emitter has handed the same list to the script collector first on every path (dominance), and the collector looks into both arms of conditional attributes. NOT decided: counts/positions in concrete rendered documents. R11 the collector of an element's script attributes hands the Then/Else lists of a conditional attribute to code that looks for conditional attributes itself (nesting). R12 a caller's slice of items is never filtered or appended to in place. R1 also follows forwarding accessors (`return v.seen(prefix + s)`). R3 tells the class-name switch and the CSS-rule switch apart by what they read. R13 over the paths of the CSS-rule function (helpers enumerated in place): the Key of a KeyValue[…, bool] is handed on for rendering only on paths that found its Value true. R14 every Sum of a hash is Sum(nil) on a hash that was written to (the short hash in a script's JavaScript name digests the body). R5 also: the stylesheet endpoint writes from the exported class list as it is at the request, not from a copy kept in another field. R15 the generator emits one name into ComponentScript.Name, the `function <name>(` of the definition and both call fields (GEM over the field table, also when it is built by a helper). R16 a function of the runtime that uses a ComponentScript's Call / CallInline has handed the script to RenderScriptItems first.",
+		Explanation: "Decides, for the per-context registries of package templ and the generator's hoisting: R1 every `already rendered?` query is a check-then-record — on the not-yet-rendered side the paired record call follows with the same key, and the emission of the script/class/once body sits on that side only; R2 the registry methods touch only fields of their receiver (no package-level state), and the registry lives in the context value created per InitializeContext; R3 the two type switches over class containers agree: every container type from which the class-NAME switch extracts a component class has an acting case in the CSS-RULE switch, and every acting case of the rule switch has a case in the name switch (otherwise a class is named without its rule, or ruled under the unknown-type name); R4 on every emission path of an element writer, the calls that emit RenderCSSItems / RenderScriptItems precede the element's `<name` literal (GEM); R5 the CSS middleware records every registered class in the context it passes to the next handler and serves them from the stylesheet endpoint. R6 the map fields of the per-render state are only assigned freshly made maps (never an existing map, which would be shared between requests); R7 the once-handle registry is keyed by the handle's identity (its pointer), not by a field that only the constructor sets. R8 a render has one state object (stored by InitializeContext only, never copied by value), so marks are seen by the whole render. R9 the collector of script definitions and the attribute writer hand the event-handler predicate the attribute name in the same form. R10 every element emitter of the generator that hands an attribute list to the attribute emitter has handed the same list to the script collector first on every path (dominance), and the collector looks into both arms of conditional attributes. NOT decided: counts/positions in concrete rendered documents. R11 the collector of an element's script attributes hands the Then/Else lists of a conditional attribute to code that looks for conditional attributes itself (nesting). R12 a caller's slice of items is never filtered or appended to in place. R1 also follows forwarding accessors (`return v.seen(prefix + s)`). R3 tells the class-name switch and the CSS-rule switch apart by what they read. R13 over the paths of the CSS-rule function (helpers enumerated in place): the Key of a KeyValue[…, bool] is handed on for rendering only on paths that found its Value true. R14 every Sum of a hash is Sum(nil) on a hash that was written to (the short hash in a script's JavaScript name digests the body). R5 also: the stylesheet endpoint writes from the exported class list as it is at the request, not from a copy kept in another field. R15 the generator emits one name into ComponentScript.Name, the `function <name>(` of the definition and both call fields (GEM over the field table, also when it is built by a helper). R16 a function of the runtime that uses a ComponentScript's Call / CallInline has handed the script to RenderScriptItems first. R17 OnceHandle.Once records the handle before every render of its content; R18 the methods of ComponentHandler (and the helpers they call) hand the request's context on as it came: no InitializeContext, ClearChildren or WithChildren.",
 		Assumptions: []string{"map membership is the only state of the registry"},
 		Trusted:     []string{"go/types", "go/parser", "x/tools go/packages, go/cfg"},
 		Run:         runC12,
@@ -32,6 +32,8 @@ func runC12(c *Ctx) {
 	sharedSlicesNotAppendedInPlace(c, "C12.R12", ".")
 	scriptRegisteredUnderItsFunctionName(c, "C12.R15")
 	scriptCallsWrittenAfterTheirDefinition(c, "C12.R16")
+	handlerHandsTheRequestContextOn(c, "C12.R18")
+	onceMarksBeforeItRenders(c, "C12.R17")
 	p := c.pkg(".")
 	info := p.TypesInfo
 
